@@ -192,6 +192,7 @@ pub fn run(ctx: &mut Ctx) {
         let mut st = gen::default_settings();
         st.presolve_enable = true;
         let mut built = vec![];
+        let mut threaded: Vec<(Problem, f64, std::sync::mpsc::Sender<()>, std::thread::JoinHandle<Option<problem::SolveResult>>)> = vec![];
         for _ in 0..nsolvers {
             let bnd = *rng.choose(&bounds);
             if bnd == default_bound && rng.bool(0.5) {
@@ -210,18 +211,52 @@ pub fn run(ctx: &mut Ctx) {
                     }
                 }
             }
+            // the bound is a property of the process, not of the thread that set it: a third of the solvers are
+            // built (and later solved) on ANOTHER thread than the one that called set_infinity
+            if rng.bool(0.33) {
+                let (go_tx, go_rx) = std::sync::mpsc::channel::<()>();
+                let (seen_tx, seen_rx) = std::sync::mpsc::channel::<f64>();
+                let (p2, st2) = (p.clone(), st.clone());
+                let handle = std::thread::spawn(move || {
+                    let seen = clarabel::get_infinity();
+                    let solver = problem::new_solver(&p2, &st2);
+                    let _ = seen_tx.send(seen);
+                    let _ = go_rx.recv();
+                    match solver {
+                        Ok(mut sv) => problem::solve_observed(&mut sv).ok().map(|ev| problem::extract(&sv, ev)),
+                        Err(_) => None,
+                    }
+                });
+                let seen = seen_rx.recv().unwrap_or(f64::NAN);
+                ctx.eval(1);
+                ctx.bump("solvers_built_on_another_thread");
+                if seen.to_bits() != bnd.to_bits() {
+                    ctx.violation("history:bound_not_seen_by_other_thread", "history:bound_not_seen_by_other_thread", wl2, case, json!({"set_on_main_thread": bnd, "get_infinity_on_spawned_thread": problem::fj(seen)}));
+                }
+                threaded.push((p, bnd, go_tx, handle));
+                continue;
+            }
             if let Ok(s) = problem::new_solver(&p, &st) {
                 built.push((p, bnd, s));
             }
         }
         // scramble the module-level value before solving
         clarabel::set_infinity(*rng.choose(&[1e3, 1e30]));
+        let mut results: Vec<(Problem, f64, problem::SolveResult)> = vec![];
+        for (p, bnd, go_tx, handle) in threaded {
+            let _ = go_tx.send(());
+            if let Ok(Some(res)) = handle.join() {
+                results.push((p, bnd, res));
+            }
+        }
         for (p, bnd, mut solver) in built {
             let ev = match problem::solve_observed(&mut solver) {
                 Ok(e) => e,
                 Err(_) => continue,
             };
-            let res = problem::extract(&solver, ev);
+            results.push((p, bnd, problem::extract(&solver, ev)));
+        }
+        for (p, bnd, res) in results {
             ctx.eval(1);
             let pm = presolve_model(&p, &st, &res, bnd);
             let mut fails = pm.fails.clone();
